@@ -148,11 +148,11 @@ func (r *c05run) waitFor(d time.Duration, pred func() bool) bool {
 	return true
 }
 
-var c05mu sync.Mutex
+
 
 func c05exec(c *h.Ctx, cs *h.Case) {
-	c05mu.Lock() // fix.Prepare is global
-	defer c05mu.Unlock()
+	fixMu.Lock() // fix.Prepare is global
+	defer fixMu.Unlock()
 	f := c04get()
 	k := 3
 	ct := f.tree(false, k)
